@@ -7,6 +7,36 @@ import (
 	"lachk/core"
 )
 
+// c02Forwarding: the function literal does nothing but return the result of one static call of a module
+// function (`func(e dag.Event) bool { return p.confirmIfNew(e, frame, cb) }`); returns the callee as a
+// view whose parameters translate to the literal's (and the captured) variables.
+func c02Forwarding(l *core.FuncInfo) (c01Effect, bool) {
+	if l == nil || l.Body == nil || len(l.Body.List) != 1 {
+		return c01Effect{}, false
+	}
+	ret, ok := l.Body.List[0].(*ast.ReturnStmt)
+	if !ok || len(ret.Results) != 1 {
+		return c01Effect{}, false
+	}
+	call, ok := ast.Unparen(ret.Results[0]).(*ast.CallExpr)
+	if !ok {
+		return c01Effect{}, false
+	}
+	cs := c01CallSiteOf(l, call)
+	if cs == nil {
+		return c01Effect{}, false
+	}
+	fn, ok := cs.Callee.(*types.Func)
+	if !ok {
+		return c01Effect{}, false
+	}
+	g := l.P.FuncOf(fn)
+	if g == nil || g == l {
+		return c01Effect{}, false
+	}
+	return c01Effect{Caller: l, At: cs, G: g, Eff: cs}, true
+}
+
 // c02MarkCodec: "not yet delivered" is encoded as mark == 0, so the stored mark must be an injective,
 // full-width encoding of the block's frame: a truncated encoding maps some later frame to 0 and every
 // event of that block is delivered again.
